@@ -190,7 +190,7 @@ theorem sortedDesc_head_max (acq : List F) (perm : List Nat) (i0 : Nat) (hs : so
 
 /-- C17, the proposal: a model-based proposal is one of the (sub)sampled candidates and its acquisition value dominates -/
 theorem C17_smbo_proposal_argmax {pc : List Pos} {tape rest : Tape} {p : Pos} (h : pickByAcq pc tape = .ok (p, rest)) :
-    ∃ acq perm i0, tape = Draw.spiral acq :: Draw.sorted perm :: rest ∧ acq.length = pc.length ∧ pc[i0]? = some p ∧
+    ∃ acq perm i0, tape = Draw.vec acq :: Draw.sorted perm :: rest ∧ acq.length = pc.length ∧ pc[i0]? = some p ∧
       ((∀ x ∈ acq, x.isNan = false) → ∀ j, j < acq.length → F.ge (acq.getD i0 .nan) (acq.getD j .nan) = true) := by
   unfold pickByAcq at h
   split at h
